@@ -23,6 +23,31 @@ P1 == {<<"w", a>> : a \in Names}
 P2 == {<<"w", a, b>> : a \in Names, b \in Names}
 Paths == {AbsP(x) : x \in P1 \cup P2}
 
+\* C10: a fixed base - B with a directory and a file inside, a sentinel file and directory outside
+BpBase == <<[C0 EXCEPT !.op = "mkdir", !.p = AbsP(<<"w", "B">>), !.perm = 493],
+            [C0 EXCEPT !.op = "mkdir", !.p = AbsP(<<"w", "B", "a">>), !.perm = 493],
+            [C0 EXCEPT !.op = "writefile", !.p = AbsP(<<"w", "B", "f">>), !.data = <<1>>, !.perm = 420],
+            [C0 EXCEPT !.op = "writefile", !.p = AbsP(<<"w", "s">>), !.data = <<2, 2>>, !.perm = 420],
+            [C0 EXCEPT !.op = "mkdir", !.p = AbsP(<<"w", "a">>), !.perm = 493]>>
+BpComps == {"a", "f", "b", "..", ".", "B", "s"}
+BpPaths == {[abs |-> ab, parts |-> <<x>>] : ab \in BOOLEAN, x \in BpComps}
+           \cup {[abs |-> ab, parts |-> <<x, y>>] : ab \in BOOLEAN, x \in BpComps, y \in BpComps}
+           \cup {[abs |-> ab, parts |-> <<"..", "..", y>>] : ab \in BOOLEAN, y \in {"s", "a", "w"}}
+           \cup {[abs |-> ab, parts |-> <<"a", "..", "..", y>>] : ab \in BOOLEAN, y \in {"s", "B"}}
+           \cup {AbsP(<<>>)}
+BpCalls ==
+    {[C0 EXCEPT !.op = o, !.p = p] : o \in {"stat", "lstat", "readfile", "readdir", "remove", "removeall", "chdir", "create",
+                                            "createtemp", "mkdirtemp"}, p \in BpPaths}
+    \cup {[C0 EXCEPT !.op = "mkdir", !.p = p, !.perm = 493] : p \in BpPaths}
+    \cup {[C0 EXCEPT !.op = "mkdirall", !.p = p, !.perm = 493] : p \in BpPaths}
+    \cup {[C0 EXCEPT !.op = "writefile", !.p = p, !.data = <<3>>, !.perm = 420] : p \in BpPaths}
+    \cup {[C0 EXCEPT !.op = "openclose", !.p = p, !.flag = <<"WRONLY", "CREATE">>, !.perm = 420] : p \in BpPaths}
+    \cup {[C0 EXCEPT !.op = "truncate", !.p = p, !.n = 0] : p \in BpPaths}
+    \cup {[C0 EXCEPT !.op = "chmod", !.p = p, !.perm = 448] : p \in BpPaths}
+    \cup {[C0 EXCEPT !.op = o, !.p = p, !.q = q] : o \in {"rename", "link"}, p \in {AbsP(<<"f">>), RelP(<<"f">>), AbsP(<<"a">>)},
+                                                    q \in BpPaths}
+    \cup {[C0 EXCEPT !.op = "getwd"]}
+
 BuildCalls ==
     {[C0 EXCEPT !.op = "mkdir", !.p = p, !.perm = 493] : p \in Paths}
     \cup {[C0 EXCEPT !.op = "writefile", !.p = p, !.data = <<1, 2>>, !.perm = 420] : p \in Paths}
@@ -75,10 +100,14 @@ PlanFired == wx.plan.fn # "none" /\ CountOf(wx.fc, wx.plan.fn) >= wx.plan.k
 EdgeFile == IF "VERIF_EDGES" \in DOMAIN IOEnv THEN IOEnv.VERIF_EDGES ELSE ""
 Emit(rec) == IF EdgeFile = "" THEN TRUE ELSE CSVWrite("%1$s", <<ToJson(rec)>>, EdgeFile)
 
-Init == st = InitSt /\ hist = <<>> /\ w = "none" /\ wh = <<>> /\ last = [call |-> C0, res |-> R0] /\ wx = X0
+RECURSIVE RunAll(_, _)
+RunAll(s, cs) == IF cs = <<>> THEN s ELSE RunAll(Apply(s, Head(cs)).st, Tail(cs))
+
+Init == st = (IF Kind = "basepath" THEN RunAll(InitSt, BpBase) ELSE InitSt)
+        /\ hist = (IF Kind = "basepath" THEN BpBase ELSE <<>>) /\ w = "none" /\ wh = <<>> /\ last = [call |-> C0, res |-> R0] /\ wx = X0
 
 Build ==
-    /\ w = "none" /\ Len(hist) < BuildLen
+    /\ w = "none" /\ Len(hist) < BuildLen /\ Kind # "basepath"
     /\ \E c \in BuildCalls : LET o == Apply(st, c) IN
           /\ o.res.err = "ok"
           /\ st' = o.st /\ hist' = Append(hist, c) /\ last' = [call |-> c, res |-> o.res] /\ UNCHANGED <<w, wh, wx>>
@@ -95,15 +124,19 @@ Through(s, c) ==
 
 Call ==
     /\ w # "none" /\ Len(wh) < WrapLen /\ ~PlanFired
-    /\ \E c \in WrapCalls(st) : LET o == Through(st, c)
-                                      rp == Res(st, c.p, FALSE) IN
+    /\ \E c \in (IF Kind = "basepath" THEN BpCalls ELSE WrapCalls(st)) : LET o == Through(st, c)
+                                      rp == Res(st, IF Kind = "basepath" THEN ToBase(st, c.p) ELSE c.p, FALSE) IN
           \* removing or moving the working directory (or an ancestor of it) is outside the universe
           /\ ~(c.op \in {"remove", "removeall", "rename"} /\ rp.err = "ok" /\ rp.id # Root /\ rp.id \in Range(st.cwd))
           \* under a fault plan only calls that consult the planned primitive are of interest
           /\ (wx.plan.fn # "none" => \E i \in DOMAIN o.cons : o.cons[i] = wx.plan.fn)
           /\ st' = o.st /\ wh' = Append(wh, c) /\ last' = [call |-> c, res |-> o.res] /\ wx' = o.x /\ UNCHANGED <<hist, w>>
           /\ Emit([hist |-> hist, wrap |-> WrapName, wh |-> wh, call |-> c, res |-> o.res, pre |-> Proj(st),
-                   post |-> Proj(o.st), cwd |-> CwdPath(o.st), cons |-> o.cons])
+                   post |-> Proj(o.st), cwd |-> CwdPath(o.st), cons |-> o.cons, hs |-> HObs(o.st)])
+          /\ \A i \in {"memfs", "orefafs"} :
+               \A a \in {y \in WOutcomes(w, i, st, c, wx) : y.kf # "" /\ y.cons = o.cons} :
+                  Emit([t |-> "alt", hist |-> hist, wrap |-> WrapName, wh |-> wh, call |-> c,
+                        alt |-> [impl |-> i, kf |-> a.kf, res |-> a.res, post |-> Proj(a.st), cwd |-> CwdPath(a.st), hs |-> HObs(a.st)]])
 
 Next == Build \/ Wrap \/ Call
 Spec == Init /\ [][Next]_vars
@@ -114,6 +147,9 @@ RoNeverChangesBase == [][(w \in {"rofs", "failro"} /\ w' = w) => Proj(st') = Pro
 \* ... and every mutating call is refused
 RoRefusesMutators == [][(w \in {"rofs", "failro"} /\ w' = w /\ last'.call.op \in RoMutatingNs \cup RoMutatingH)
                             => last'.res.err \in PermErrs \cup {"CLOSED", "NOHANDLE"}]_vars
+\* C10 on the specification: nothing outside B changes through the wrapper
+BpConfines == [][(w = "basepath" /\ w' = w) => Outside(st') = Outside(st)]_vars
+
 \* C12 on the specification: an injected failure is returned as such, and without a plan FailFS is the base
 Composites == {"readfile", "readdir", "writefile", "create", "mkdirtemp", "openclose", "createtemp", "subwrite", "submkdir"}
 InjectedIsReturned ==
